@@ -103,7 +103,7 @@ fn check_value(v: u64, with_poll: bool) -> Result<(), String> {
 /// `expect`: Some((v, w)) = var-int is complete with value v in w bytes; None = caller checks the error itself.
 fn poll_header<F: Family>(varint: &[u8], expect: Option<(u64, usize)>) -> Result<Result<(), F::Error>, String> {
     let first = poll_header_mode::<F>(varint, expect, 0)?;
-    for mode in 1..4 {
+    for mode in 1..5 {
         let other = poll_header_mode::<F>(varint, expect, mode)?;
         if other != first {
             return Err(format!(
@@ -111,7 +111,7 @@ fn poll_header<F: Family>(varint: &[u8], expect: Option<(u64, usize)>) -> Result
                 F::FAM.name(),
                 hex(varint),
                 other,
-                ["", "Pending (same future)", "Pending (future re-created at every Pending)", "a transient transport failure (Interrupted / WouldBlock / TimedOut), polled again with the same state,"][mode as usize],
+                ["", "Pending (same future)", "Pending (future re-created at every Pending)", "a transient transport failure (Interrupted / WouldBlock / TimedOut), polled again with the same state,", "the first byte already taken by the caller (state built as PollHeaderState { control_byte: Some(first), ..Default::default() })"][mode as usize],
                 first
             ));
         }
@@ -129,11 +129,18 @@ fn poll_header_mode<F: Family>(varint: &[u8], expect: Option<(u64, usize)>, mode
         3 => (0..data.len() * 2 + 2).map(|i| if i % 2 == 0 { Step::Fail(transient[(i / 2) % 3]) } else { Step::Chunk(1) }).collect(),
         _ => (0..data.len() * 2 + 2).map(|i| if i % 2 == 0 { Step::Pending } else { Step::Chunk(1) }).collect(),
     };
-    let mut reader = ScriptedReader::new(&data, &steps);
+    // mode 4: the caller has looked at the first byte of the connection itself (to tell protocols apart) and hands the
+    // decoder a state that says so - the public fields of the header state, everything else at its default
+    let peeked = mode == 4;
+    let mut reader = ScriptedReader::new(if peeked { &data[1..] } else { &data }, &steps);
     let transients = reader.transients.clone();
     let last_transient = reader.last_transient.clone();
     let mut seen = 0u64;
-    let mut state: GenericPollPacketState<F::Header> = GenericPollPacketState::default();
+    let mut state: GenericPollPacketState<F::Header> = if peeked {
+        GenericPollPacketState::Header(mqtt_proto::PollHeaderState { control_byte: Some(data[0]), ..Default::default() })
+    } else {
+        GenericPollPacketState::default()
+    };
     let waker = crate::sio::noop_waker();
     let mut cx = std::task::Context::from_waker(&waker);
     let mut polls = 0;
